@@ -6,7 +6,6 @@
    Everything here is executable and total; nothing is proved about it because it is part of
    the correspondence glue (trusted base item 5), not of the models. *)
 From LV Require Import Base.Bytes.
-From Coq Require Decimal DecimalN DecimalZ.
 
 Inductive sx := SA (a : bytes) | SL (l : list sx).
 
@@ -52,16 +51,14 @@ Fixpoint sx_print (x : sx) : bytes :=
 
 Definition digit_byte (d : N) : byte := byte_of_N (48 + d).
 
-Fixpoint uint_bytes (u : Decimal.uint) : bytes :=
-  match u with
-  | Decimal.Nil => []
-  | Decimal.D0 u => x30 :: uint_bytes u | Decimal.D1 u => x31 :: uint_bytes u | Decimal.D2 u => x32 :: uint_bytes u
-  | Decimal.D3 u => x33 :: uint_bytes u | Decimal.D4 u => x34 :: uint_bytes u | Decimal.D5 u => x35 :: uint_bytes u
-  | Decimal.D6 u => x36 :: uint_bytes u | Decimal.D7 u => x37 :: uint_bytes u | Decimal.D8 u => x38 :: uint_bytes u
-  | Decimal.D9 u => x39 :: uint_bytes u
+(* decimal digits of n, most significant first; fuel = number of bits + 1 always suffices *)
+Fixpoint dec_digits (fuel : nat) (n : N) (acc : bytes) : bytes :=
+  match fuel with
+  | O => acc
+  | S f => if (n <? 10)%N then digit_byte n :: acc
+           else dec_digits f (n / 10)%N (digit_byte (n mod 10)%N :: acc)
   end.
-
-Definition N_dec (n : N) : bytes := uint_bytes (N.to_uint n).
+Definition N_dec (n : N) : bytes := dec_digits (S (N.to_nat (N.log2 n))) n [].
 Definition Z_dec (z : Z) : bytes :=
   match z with
   | Z0 => [x30]
